@@ -48,7 +48,11 @@ def gen_cases(ctx):
     maxlen = 5 if thorough else 4
     base = list(texts_upto(maxlen))
     special = ['hello', 'banana', 'abcabc', 'a"b', "it's", 'naïve', 'ÀÉÎ', 'x' * 40, '  a   b  ', 'Aa',
-               'a\tb', '日本語テキスト', 'aaa', 'abab', '']
+               'a\tb', '日本語テキスト', 'aaa', 'abab', '',
+               # only U+0020 is a blank for TRIM: other white space must survive, also at the ends
+               '\ta', 'a\t', '\u00a0a  b\u00a0', 'x\u3000', '\u3000x', '\na\n', ' \t a ', ' \u00a0 ', '\t', '\u00a0',
+               # texts that spell booleans / zero are ordinary texts
+               'false', 'FALSE', 'False', 'true', 'TRUE', '0', 'falsetto', ' false']
     texts = base + special
     pos = list(range(-2, maxlen + 3))
     cases = []
@@ -80,6 +84,17 @@ def gen_cases(ctx):
         for b in ['', 'a', 'A', 'ab', 'aB', a]:
             cases.append(('EXACT', (a, b)))
             cases.append(('CONCAT', (a, b)))
+    words = ['false', 'FALSE', 'False', 'true', '0', '', 'it is ', 'x', ' ', 'no']
+    for a in words:
+        for b in words:
+            cases.append(('CONCAT', (a, b)))
+            cases.append(('CONCAT', (a, b, a)))
+            cases.append(('EXACT', (a, b)))
+        for n in range(0, 7):
+            cases.append(('LEFT', (a, n)))
+            cases.append(('RIGHT', (a, n)))
+        cases.append(('REPLACE', ('abcdef', 2, 3, a)))
+        cases.append(('FIND', (a, 'it is false, FALSE', 1)))
     cases.append(('CONCAT', tuple('x' for _ in range(254))))
     cases.append(('CONCAT', tuple('x' for _ in range(255))))
     # non-integer and float-typed counts (int() truncates toward zero)
@@ -209,6 +224,22 @@ def run(ctx):
         if not same_value(got, direct):
             res.violations.append({'what': f'{fn} through a formula differs from the direct call',
                                    'input': {'formula': f}, 'expected': direct, 'got': got})
+    for a in ['false', 'FALSE', 'true', '0', '', 'it is ', 'x']:
+        for b in ['false', 'FALSE', 'False', '0', '', 'y']:
+            la, lb = '"' + a + '"', '"' + b + '"'
+            for f, want in ((f'={la}&{lb}', w_text(a + b)), (f'=LEN({la}&{lb})', f'I:{len(a + b)}'),
+                            (f'=CONCATENATE({la},{lb})', w_text(a + b)), (f'=CONCAT({la},{lb})', w_text(a + b)),
+                            (f'=LEFT({lb},{len(b)})&RIGHT({lb},LEN({lb})-{len(b)})', w_text(b))):
+                def ev(f=f):
+                    m = ModelCompiler().read_and_parse_dict({'Sheet1!A1': f})
+                    return Evaluator(m).evaluate('Sheet1!A1')
+                got = call_real(ev)
+                via_formula += 1
+                res.evaluations += 1
+                res.nontrivial.add(('amp', f))
+                if not same_value(got, want):
+                    res.violations.append({'what': '& / CONCAT / CONCATENATE must join the texts exactly',
+                                           'input': {'formula': f}, 'expected': want, 'got': got})
     res.count('via_formula', via_formula)
     if res.drift:
         res.notes.append(f'{len(res.drift)} model/implementation differences where the code still meets Spec')
